@@ -167,7 +167,8 @@ def run_near(case, ctx):
 
 
 # ---- metric computations as requests ----------------------------------------------------------
-METRIC_POOL = ["bs", "bsrel", "bsres", "bss", "ign0", "spherical", "marginalratio", "bsunc", "ets", "hit", "mae", "corr", "quantilescore", "pit"]
+METRIC_POOL = ["bs", "bsrel", "bsres", "bss", "ign0", "spherical", "marginalratio", "bsunc", "ets", "hit", "mae", "corr", "quantilescore", "pit",
+               "obs:iqr", "fcst:iqr", "obs:median", "fcst:0.9", "mae:iqr", "obs:range", "fcst:std", "rmse:median", "obs:max", "rankcorr", "kendallcorr"]
 
 
 def metric_strategy(tier):
@@ -203,17 +204,22 @@ def check_metrics(case, ctx):
     data = mat.make_data(spec)
     sub = dict(case)
     done = []
+    import verif.axis
+    probes = [[("obs",)], [("fcst",)], [("obs",), ("fcst",)]]
     for step, name in enumerate(case["metrics"]):
+        agg = None
+        if ":" in name:
+            name, agg = name.split(":")
         kind = mrun.kind_of(name)
-        kw = {}
+        kw = {"agg": agg} if agg else {}
         if kind in ("pthr", "thr"):
             if not case["thresholds"]:
                 continue
-            kw = {"thresholds": case["thresholds"], "bin_type": case["bin_type"]}
+            kw = dict(kw, thresholds=case["thresholds"], bin_type=case["bin_type"])
         elif kind == "q1":
             if not case["quantiles"]:
                 continue
-            kw = {"thresholds": case["quantiles"]}
+            kw = dict(kw, thresholds=case["quantiles"])
         elif kind == "pit" and spec["inputs"][0].get("pit") is None:
             continue
         try:
@@ -231,7 +237,22 @@ def check_metrics(case, ctx):
                      "-m %s (-b %s -r %r) computed after %r on the same object gives %r, on a fresh object %r"
                      % (name, case["bin_type"], case["thresholds"], done, np.asarray(got).ravel()[:6].tolist(), np.asarray(fresh).ravel()[:6].tolist()))
             return
-        done.append(name)
+        done.append(name if not agg else name + ":" + agg)
+        # ... and the arrays the object hands out afterwards are what a fresh object hands out (same order, same values)
+        vax = mat.vaxis(case["axis"])
+        fresh_data = mat.make_data(spec)
+        for F in probes:
+            vF = [mat.vfield(f) for f in F]
+            for i in range(len(spec["inputs"])):
+                for k in range(ds.n_slices(case["axis"])):
+                    a = data.get_scores(vF, i, vax, k)
+                    b = fresh_data.get_scores(vF, i, vax, k)
+                    ctx.evals += 1
+                    if any(not cmpx.arrays_equal(x, y) for x, y in zip(a, b)):
+                        ctx.fail("C18/fresh/after-metric", dict(sub, metrics=case["metrics"][:step + 1]),
+                                 "after computing %r, request %r (input %d, %s slice %d) returns %r, a fresh object %r"
+                                 % (done, F, i, case["axis"], k, [np.asarray(x).ravel()[:6].tolist() for x in a], [np.asarray(x).ravel()[:6].tolist() for x in b]))
+                        return
 
 
 def resolve(spec, ds, menu, r):
